@@ -8,7 +8,7 @@ sys.path.insert(0, H.VERIF)
 def main():
     t = time.time()
     for c in ["sos_core", "sos_vault", "sos_filesystem", "sos_reducers", "sos_search", "sos_remote_sync", "sos_sync",
-              "sos_database", "sos_integrity", "sos_server_storage", "sos_server"]:
+              "sos_database", "sos_integrity", "sos_server_storage", "sos_server", "sos_protocol"]:
         try:
             _, dt = H.dump_mir(c)
             print("MIR %s: %.1fs" % (c, dt), flush=True)
